@@ -238,6 +238,21 @@ def add_traps(draw, s):
         extra.append(['assert', ['str.contains', plain_strs[0], '"q"']])
         traps.add('prefix-name-taken')
     if draw(st.booleans()):
+        # shapes the random terms rarely hit, so that every registered mutator proposes something
+        extra.append(['declare-const', 'bq1', ['_', 'BitVec', '1']])
+        extra.append(['declare-const', 'bq2', ['_', 'BitVec', '1']])
+        extra.append(['assert', ['=', '#b1', ['bvor', 'bq1', ['bvand', 'bq2', 'bq1']]]])
+        extra.append(['assert', ['=', ['bvnand', 'bq1', 'bq1'], 'bq2']])
+        extra.append(['assert', ['=', ['seq.nth', ['seq.unit', 'bq1'], '0'], 'bq2']])
+        extra.append(['declare-const', '__rw', ['_', 'BitVec', '2']])
+        extra.append(['define-fun', '_rw', [], ['_', 'BitVec', '4'], [['_', 'zero_extend', '2'], '__rw']])
+        extra.append(['define-fun', 'rw', [], ['_', 'BitVec', '8'], [['_', 'zero_extend', '4'], '_rw']])
+        extra.append(['assert', ['=', 'rw', '#x03']])
+        extra.append(['declare-datatype', 'TD', [['tnil'], ['tc', ['ts1', 'Int'], ['ts2', 'Bool']]]])
+        extra.append(['assert', ['=', ['ts1', ['tc', '5', 'true']], '5']])
+        extra.append(['assert', ['ts2', ['tc', ['+', '1', '2'], 'false']]])
+        traps.add('rare-mutator-shapes')
+    if draw(st.booleans()):
         # incremental benchmarks repeat (set-info :status ...) before each check-sat
         extra.append(['set-info', ':status', 'sat'])
         if draw(st.booleans()):
